@@ -515,7 +515,14 @@ fn eval_func_expr(
     node: dom::XmlNode,
     context: &mut model::Context,
 ) -> error::Result<model::Value> {
-    let (local_part, _, uri) = context.expanded_name(func.name())?;
+    // the caller's default namespace is for element names, not for function names
+    let (local_part, uri) = match func.name() {
+        nom::model::QName::Unprefixed(v) => (v.to_string(), None),
+        name => {
+            let (local_part, _, uri) = context.expanded_name(name)?;
+            (local_part, uri)
+        }
+    };
 
     let table = func::table();
     let entry = table
